@@ -239,7 +239,10 @@ pub fn main(check: &dyn Check) -> ! {
         };
         let mut rep = Reporter::new(&property, Some(scratch.join("current_case")));
         quiet_panics();
-        check.run(&ctx, &mut rep);
+        if let Err(p) = catch(|| check.run(&ctx, &mut rep)) {
+            eprintln!("HARNESS-PANIC (outside any oracle): {p}");
+            std::process::exit(101);
+        }
         let out = args.report.unwrap_or_else(|| machinery("worker without --report"));
         rep.finish().write(&out);
         std::process::exit(0);
@@ -262,7 +265,10 @@ pub fn main(check: &dyn Check) -> ! {
         };
         let mut rep = Reporter::new(&property, Some(scratch.join("current_case")));
         quiet_panics();
-        check.replay(&ctx, &case, &mut rep);
+        if let Err(p) = catch(|| check.replay(&ctx, &case, &mut rep)) {
+            eprintln!("HARNESS-PANIC (outside any oracle): {p}");
+            std::process::exit(101);
+        }
         let out = args.report.unwrap_or_else(|| machinery("replay-worker without --report"));
         rep.finish().write(&out);
         std::process::exit(0);
